@@ -35,7 +35,7 @@ ANCHOR_FILES = [
 RULE = (
     "geometry cases: seeded matrix shape class{square even/odd, tall, wide, mixed parity, tiny 6..9} x scan-angle class{0,90,180,270,random "
     "in [0,360), per-image different angles} x pad class{0, 0.1, 0.25, 0.5, random 0..0.5}, stacks of 2..4 images, KDE sigma 0.3..2, every case "
-    "preprocessed with 1, 2, 3 and 4 knots; fixed-point cases: identical stacks of 2..4 x upsample_factor{1,2,4,8,16} x knots{1..4} x "
+    "preprocessed with 1, 2, 3 and 4 knots; fixed-point cases: identical stacks of 2..4 x upsample_factor{1,2,3,4,5,7,8,16} x knots{1..4} x "
     "angle class x image family{uniform noise, zero-mean noise, blobs+noise, band-limited}. non-trivial = rows != cols or angle not a "
     "multiple of 90 degrees; distinct = (kind, shape class, angle class, pad class | upsample factor, knots, family)"
 )
@@ -61,7 +61,7 @@ REQUIRED_COUNTERS = [
 SHAPES = ["sq_even", "sq_odd", "tall", "wide", "mixed", "tiny"]
 ANGLES = ["a0", "a90", "a180", "a270", "rand", "per_image"]
 PADS = ["p0", "p10", "p25", "p50", "prand"]
-UPS = [1, 2, 4, 8, 16]
+UPS = [1, 2, 3, 4, 5, 7, 8, 16]  # odd factors too: patch radius ceil(1.5*up) vs int(1.5*up) only differ there
 FAMILIES = ["noise01", "noise0", "blobs", "bandlimited"]
 
 TOL_COORD = 1e-9
